@@ -1,12 +1,20 @@
 #!/bin/sh
 # usage: try_mutant.sh <property> <patch.diff> [tier] ; applies the patch to /repo, runs the check, reverts.
+# The evidence file and replays of the unchanged tree are saved and restored: evidence
+# committed under /verif must always describe a run on the unchanged tree.
 prop="$1"; patch="$2"; tier="${3:-quick}"
 cd /repo || exit 2
 if ! git diff --quiet; then echo "repo dirty"; exit 2; fi
 git apply "$patch" || { echo "patch does not apply"; exit 2; }
 cd /verif
+sav=$(mktemp -d /tmp/vfsave.XXXXXX)
+[ -f evidence/$prop.json ] && cp evidence/$prop.json $sav/
+[ -d replays/$prop ] && cp -r replays/$prop $sav/replays
 ./check.sh "$prop" "$tier" > /tmp/mutant_$prop.log 2>&1
 rc=$?
+[ -f $sav/$prop.json ] && cp $sav/$prop.json evidence/$prop.json
+rm -rf replays/$prop; [ -d $sav/replays ] && cp -r $sav/replays replays/$prop
+rm -rf $sav
 cd /repo && git checkout -- . && git clean -fdq
 echo "exit=$rc"
 grep -E "^VIOLATION|^KNOWN|^RESULT|^harness|^INCONCLUSIVE" /tmp/mutant_$prop.log | cut -c1-300
